@@ -151,8 +151,12 @@ Fixpoint merkle (a_p : bytes) (norec : bool) (n : node) : option bytes :=
   | _ => None
   end.
 
-Definition spec_merkle (w : world) : bool :=
+(* [only] = the stages the commit traversed ([] = all of them); outputs, and the PLAIN inputs (an
+   input owned by another stage records that stage's artifact checksum, which is C09's business) *)
+Definition spec_merkle (w : world) (only : list bytes) : bool :=
+  let idx := match load_index (w_index w) (w_stages w) [] with Some i => i | None => [] end in
   forallb (fun f =>
+    if match only with [] => false | _ => negb (mem (fst f) only) end then true else
     match snd f with
     | Some s =>
       forallb (fun a =>
@@ -165,7 +169,8 @@ Definition spec_merkle (w : world) : bool :=
                             end
                 | None => true
                 end
-        end) (s_outputs s ++ s_inputs s)   (* the role of the artifact does not matter either *)
+        end) (s_outputs s ++ filter (fun a => match find_owner idx (a_path a) with Some _ => false | None => true end)
+                                    (s_inputs s))   (* the role of the artifact does not matter either *)
     | None => true
     end) (w_stages w).
 
@@ -508,10 +513,10 @@ Definition spec_table (c : tcase) : list (N * bool) :=
   [
    (1, (spec_cache (w_cache (t_pre c)) (w_cache (t_post c))));
    (12, (spec_cache_all (w_cache (t_post c))));
-   (2, (t_ok c && world_eqb (t_pre c) (t_post c)));
+   (2, (t_ok c && world_eqb (t_pre c) (t_post c) && negb (existsb (N.eqb 8) (t_obs c))));
    (3, (match t_ref c with Some r => t_ok c && spec_roundtrip r (t_post c) (cmd_scope c) | None => true end));
    (5, (negb (t_ok c)));
-   (7, ((if t_ok c then spec_merkle (t_post c) else true)));
+   (7, ((if t_ok c then spec_merkle (t_post c) (match full_scope c with Some sc => sc | None => [] end) else true)));
    (8, (cache_eqb (w_cache (t_pre c)) (w_cache (t_post c))));
    (9, (stages_eqb (w_stages (t_pre c)) (w_stages (t_post c))));
    (11, (t_ok c));
